@@ -120,7 +120,8 @@ def _append_order(tx: ast.Module) -> List[str]:
             acts.append("AADataWrite")
         elif t == "self._written_files.append(file_path)":
             acts.append("AATrack")
-        elif t in ("self.append_files([updated_data_file])", "self.append_files([updated_data_file], _statistics_computed_here=True)"):
+        elif t in ("self.append_files([updated_data_file])", "self.append_files([updated_data_file], _statistics_computed_here=True)",
+                   "self.append_files([updated_data_file], _statistics_computed_here=_STATISTICS_COMPUTED_HERE)"):
             acts.append("AAQueue")
         elif isinstance(s, ast.Return):
             continue
